@@ -148,7 +148,8 @@ def _vtx_bytes(descs):
 def run(tier):
     rep = Report("C02", tier)
     rep.add_mc("MC_Wire", vlib.run_mc("MC_Wire", cfg="MC_Wire_quick" if tier == "quick" else "MC_Wire"))
-    recs = drive(tier)
+    recs, nsecond, ndiff = vlib.second_pass(drive, tier)
+    rep.cov["second_pass_calls"], rep.cov["second_pass_differing"] = nsecond, ndiff
     mm = vlib.validate("Trace_Wire", recs)
     rep.apply_mismatches(recs, mm)
     for x in recs:
